@@ -14,6 +14,7 @@ import (
 	"github.com/aml-org/amf-custom-validator/pkg"
 	"github.com/aml-org/amf-custom-validator/pkg/config"
 	"github.com/aml-org/amf-custom-validator/pkg/events"
+	"github.com/aml-org/amf-custom-validator/pkg/verifhook"
 )
 
 type fixedClock struct{}
@@ -165,6 +166,7 @@ var implOps = map[string]func(h caseHead, raw []byte) map[string]any{
 	"hist": implHist,
 	"c03":  implC03,
 	"cli":  implCli,
+	"c16":  implC16,
 }
 
 func runImpl(in io.Reader, out io.Writer) {
@@ -412,5 +414,29 @@ func implC03(h caseHead, raw []byte) map[string]any {
 	ctx, _ := rv.Raw["@context"].(map[string]any)
 	res["ctxReportSchema"] = ctx["reportSchema"]
 	res["ctxLexicalSchema"] = ctx["lexicalSchema"]
+	return res
+}
+
+// c16: the real path parser on one string
+type c16Head struct {
+	Text string `json:"text"`
+}
+
+func implC16(h caseHead, raw []byte) (res map[string]any) {
+	var ch c16Head
+	json.Unmarshal(raw, &ch)
+	res = map[string]any{}
+	defer func() {
+		if r := recover(); r != nil {
+			res["result"] = "PANIC"
+			res["err"] = fmt.Sprint(r)
+		}
+	}()
+	d, err := verifhook.ParsePath(ch.Text)
+	if err != nil {
+		res["result"] = "REJECT"
+		return res
+	}
+	res["result"] = d
 	return res
 }
